@@ -17,10 +17,11 @@ theorem mkSeq_nonNone (k : SeqKind) (xs : List PyVal) : (mkSeq k xs).isNone = fa
   cases k <;> rfl
 
 /-- a successfully deserialized non-null document is not None -/
-theorem deser_ok_nonNone (O : Oracles) (opts : DeserOpts) (f : FieldDecl) (v y : PyVal)
-    (hex : exactDecl f = true) (hn : v.isNone = false) (h : deser O opts false f v = .ok y) :
-    y.isNone = false := by
+theorem deser_ok_nonNone_plain (O : Oracles) (opts : DeserOpts) (f : FieldDecl) (v y : PyVal)
+    (hex : exactDecl f = true) (hp : ∀ fs, f ≠ .anyOf fs) (hn : v.isNone = false)
+    (h : deser O opts false f v = .ok y) : y.isNone = false := by
   cases f <;> simp only [exactDecl] at hex <;> try (cases hex)
+  case anyOf fs => exact absurd rfl (hp fs)
   all_goals simp only [deser, Bool.and_false, Bool.false_eq_true, if_false] at h
   case number o => unfold dValidated at h; split at h <;> simp at h; subst h; exact hn
   case integer o => unfold dValidated at h; split at h <;> simp at h; subst h; exact hn
@@ -84,10 +85,11 @@ theorem deser_ok_nonNone (O : Oracles) (opts : DeserOpts) (f : FieldDecl) (v y :
     | _ => simp [dClassRef] at h
 
 /-- the lifting of a non-null document is not None -/
-theorem lift_some_nonNone (O : Oracles) (opts : DeserOpts) (f : FieldDecl) (v w : PyVal)
-    (hex : exactDecl f = true) (hn : v.isNone = false) (h : lift O opts f v = some w) :
-    w.isNone = false := by
+theorem lift_some_nonNone_plain (O : Oracles) (opts : DeserOpts) (f : FieldDecl) (v w : PyVal)
+    (hex : exactDecl f = true) (hp : ∀ fs, f ≠ .anyOf fs) (hn : v.isNone = false)
+    (h : lift O opts f v = some w) : w.isNone = false := by
   cases f <;> simp only [exactDecl] at hex <;> try (cases hex)
+  case anyOf fs => exact absurd rfl (hp fs)
   all_goals simp only [lift] at h
   case number o => cases h; exact hn
   case integer o => cases h; exact hn
@@ -170,5 +172,75 @@ theorem lift_some_nonNone (O : Oracles) (opts : DeserOpts) (f : FieldDecl) (v w 
             simp at h; subst h; rfl
           · cases h
     | _ => simp at h
+
+/-- the shape of an `Optional[X]` declaration of the exact fragment -/
+theorem exactOpt_cases (fs : List FieldDecl) (h : exactOpt fs = true) :
+    ∃ f g, fs = [f, g] ∧ ((isNoneDecl f = true ∧ plainDecl g = true ∧ exactDecl g = true)
+                        ∨ (isNoneDecl g = true ∧ plainDecl f = true ∧ exactDecl f = true)) := by
+  match fs, h with
+  | [f, g], h =>
+    simp only [exactOpt, Bool.or_eq_true, Bool.and_eq_true] at h
+    refine ⟨f, g, rfl, ?_⟩
+    rcases h with h | h
+    · exact Or.inl ⟨h.1.1, h.1.2, h.2⟩
+    · exact Or.inr ⟨h.1.1, h.1.2, h.2⟩
+
+theorem isNoneDecl_eq (f : FieldDecl) (h : isNoneDecl f = true) : f = .noneF := by
+  cases f <;> simp [isNoneDecl] at h <;> rfl
+
+theorem plain_not_anyOf (f : FieldDecl) (h : plainDecl f = true) : ∀ fs, f ≠ .anyOf fs := by
+  intro fs hf; subst hf; simp [plainDecl] at h
+
+/-- a declaration that does not accept None: the constructor's validation rejects None -/
+theorem plain_validate_none (O : Oracles) (f : FieldDecl) (hex : exactDecl f = true) (hp : plainDecl f = true) :
+    ∃ e, validate O f .none = .error e := by
+  cases f <;> simp only [exactDecl] at hex <;> try (cases hex)
+  all_goals simp only [validate]
+  case number o => exact ⟨_, rfl⟩
+  case integer o => exact ⟨_, rfl⟩
+  case float o => exact ⟨_, rfl⟩
+  case string lo hi pat => exact ⟨_, rfl⟩
+  case boolean => exact ⟨_, rfl⟩
+  case enumLit vals =>
+    have : PyVal.pyMem .none vals = false := by simpa [plainDecl] using hp
+    simp [vEnumLit, this]
+  case enumCls cls names => exact ⟨_, rfl⟩
+  case seqOf k g sz => cases k <;> exact ⟨_, rfl⟩
+  case seqPos k gs addl sz => cases k <;> exact ⟨_, rfl⟩
+  case setOf imm g sz => exact ⟨_, rfl⟩
+  case tupleOf g u => exact ⟨_, rfl⟩
+  case tuplePos gs u => exact ⟨_, rfl⟩
+  case mapOf kf vf sz => exact ⟨_, rfl⟩
+  case struct c fields defaults =>
+    simp only [and_true_iff] at hex
+    have hinl : c.inline = false := by simpa using hex.1.1.1
+    simp [hinl, vClassRef]
+  case anyOf fs => simp [plainDecl] at hp
+
+/-- ... and so does the deserializer -/
+theorem plain_deser_none (O : Oracles) (opts : DeserOpts) (f : FieldDecl) (hex : exactDecl f = true)
+    (hp : plainDecl f = true) : ∃ e, deser O opts false f .none = .error e := by
+  cases f <;> simp only [exactDecl] at hex <;> try (cases hex)
+  all_goals simp only [deser, Bool.and_false, Bool.false_eq_true, if_false]
+  case number o => exact ⟨_, rfl⟩
+  case integer o => exact ⟨_, rfl⟩
+  case float o => exact ⟨_, rfl⟩
+  case string lo hi pat => exact ⟨_, rfl⟩
+  case boolean => exact ⟨_, rfl⟩
+  case enumLit vals =>
+    have : PyVal.pyMem .none vals = false := by simpa [plainDecl] using hp
+    simp [dValidated, vEnumLit, this]
+  case enumCls cls names => exact ⟨_, rfl⟩
+  case seqOf k g sz => exact ⟨_, rfl⟩
+  case seqPos k gs addl sz => exact ⟨_, rfl⟩
+  case setOf imm g sz => exact ⟨_, rfl⟩
+  case tupleOf g u => exact ⟨_, rfl⟩
+  case tuplePos gs u => exact ⟨_, rfl⟩
+  case mapOf kf vf sz => exact ⟨_, rfl⟩
+  case struct c fields defaults =>
+    simp only [and_true_iff] at hex
+    have hinl : c.inline = false := by simpa using hex.1.1.1
+    simp [hinl, dClassRef]
+  case anyOf fs => simp [plainDecl] at hp
 
 end Typedpy
